@@ -357,6 +357,12 @@ func eqStrings(a, b []string) bool {
 // by appends and unbounded joins only
 func (h *histRun) monitorState(r int, opIdx int, unbounded bool) {
 	rep := h.w.reps[r]
+	// logs opened under a foreign id or at a named head (known finding K5) are outside the linearisation theorems
+	fail3 := func(mon, key, detail string) {
+		if !h.outside[r] {
+			h.fail("C03", mon, key, detail, opIdx)
+		}
+	}
 	l := rep.log
 	entries := l.GetEntries().Slice()
 	heads := hashesOf(l.Heads().Slice())
@@ -396,17 +402,17 @@ func (h *histRun) monitorState(r int, opIdx int, unbounded bool) {
 	for i, e := range vals {
 		k := e.GetHash().String()
 		if _, dup := pos[k]; dup {
-			h.fail("C03", "values-nodup", "C03:duplicate", "Values() contains "+k+" twice", opIdx)
+			fail3("values-nodup", "C03:duplicate", "Values() contains "+k+" twice")
 		}
 		pos[k] = i
 	}
 	if unbounded {
 		if len(pos) != len(entries) {
-			h.fail("C03", "values-complete", "C03:incomplete", fmt.Sprintf("Values() has %d distinct entries, log has %d", len(pos), len(entries)), opIdx)
+			fail3("values-complete", "C03:incomplete", fmt.Sprintf("Values() has %d distinct entries, log has %d", len(pos), len(entries)))
 		}
 		for _, e := range entries {
 			if _, ok := pos[e.GetHash().String()]; !ok {
-				h.fail("C03", "values-complete", "C03:incomplete", "entry "+e.GetHash().String()+" missing from Values()", opIdx)
+				fail3("values-complete", "C03:incomplete", "entry "+e.GetHash().String()+" missing from Values()")
 				break
 			}
 		}
@@ -414,7 +420,7 @@ func (h *histRun) monitorState(r int, opIdx int, unbounded bool) {
 	for _, e := range vals {
 		for _, n := range e.GetNext() {
 			if j, ok := pos[n.String()]; ok && j > pos[e.GetHash().String()] {
-				h.fail("C03", "values-causal", "C03:not-causal", "predecessor "+n.String()+" placed after "+e.GetHash().String(), opIdx)
+				fail3("values-causal", "C03:not-causal", "predecessor "+n.String()+" placed after "+e.GetHash().String())
 			}
 		}
 	}
@@ -424,7 +430,7 @@ func (h *histRun) monitorState(r int, opIdx int, unbounded bool) {
 		for i := 0; i+1 < len(vals); i++ {
 			v, err := fn(vals[i], vals[i+1])
 			if err != nil || v >= 0 {
-				h.fail("C03", "values-sorted", "C03:not-sorted", fmt.Sprintf("Values()[%d] !< Values()[%d] (cmp=%d err=%v)", i, i+1, v, err), opIdx)
+				fail3("values-sorted", "C03:not-sorted", fmt.Sprintf("Values()[%d] !< Values()[%d] (cmp=%d err=%v)", i, i+1, v, err))
 				break
 			}
 		}
@@ -446,7 +452,7 @@ func (h *histRun) monitorState(r int, opIdx int, unbounded bool) {
 	}
 	sv := hashesOf(snap.Values)
 	if !eqStrings(sv, hashesOf(vals)) && total {
-		h.fail("C03", "snapshot-values", "C03:snapshot-differs", "ToSnapshot().Values differs from Values()", opIdx)
+		fail3("snapshot-values", "C03:snapshot-differs", "ToSnapshot().Values differs from Values()")
 	}
 }
 
